@@ -262,9 +262,10 @@ func runC18(c *Ctx) {
 	}
 
 	// R7
-	c.Doc("C18-R7", "in Exists and matchHierarchy every map key looked up is the (canonical) name or name[offset:] with offset accumulated only from IndexByte(…,'.')+1; wild is never consulted with the name itself; no strings.HasSuffix/HasPrefix/Contains in either; Exists/setLocked/removeLocked/Get canonicalise before touching the maps")
+	c.Doc("C18-R7", "in Exists and matchHierarchy every map key looked up is the (canonical) name or name[offset:] with offset accumulated only from IndexByte(…,'.')+1 or taken from the library's label iterator dns.NextLabel; wild is never consulted with the name itself; no strings.HasSuffix/HasPrefix/Contains in either; Exists/setLocked/removeLocked/Get canonicalise before touching the maps")
 	indexByte := c.fobj("C18-R7", "strings.IndexByte")
 	canon := c.fobj("C18-R7", "github.com/miekg/dns.CanonicalName")
+	nextLabel := c.fobj("C18-R7", "github.com/miekg/dns.NextLabel")
 	for _, name := range []string{pkg + ".(*BlockList).Exists", pkg + ".matchHierarchy"} {
 		fn := c.fn("C18-R7", name)
 		if fn == nil || indexByte == nil {
@@ -279,7 +280,7 @@ func runC18(c *Ctx) {
 					key := fmt.Sprintf("C18-R7|%s|candidate", fnKey(fn))
 					ke := Desc(lk.Index)
 					isWild := FieldIs(wildF)(Desc(lk.X))
-					why, ok := c18CandidateOK(ke, indexByte)
+					why, ok := c18CandidateOK(ke, indexByte, nextLabel)
 					switch {
 					case !ok:
 						c.violation("C18-R7", key, instrPos(in), "looked-up candidate is not the name or a whole-label suffix of it: "+why)
@@ -375,8 +376,9 @@ func c18CallReaches(in ssa.Instruction, target *types.Func, depth int) bool {
 }
 
 // c18CandidateOK: e is the name itself ("name") or name[low:] where low is
-// built only from 0, +1 and strings.IndexByte(…, '.') results.
-func c18CandidateOK(e *Expr, indexByte *types.Func) (string, bool) {
+// built only from 0, +1 and strings.IndexByte(…, '.') results, or is the start
+// of a label as returned by one of the label iterators (dns.NextLabel, result 0).
+func c18CandidateOK(e *Expr, indexByte *types.Func, labelIter ...*types.Func) (string, bool) {
 	e = strip(e)
 	if e == nil {
 		return "nil", false
@@ -452,14 +454,52 @@ func c18CandidateOK(e *Expr, indexByte *types.Func) (string, bool) {
 				v, ok := constInt(x.X)
 				return ok && v == 1
 			}
+			if len(labelIter) > 0 && (ResultOf(0, labelIter...)(x.X) || ResultOf(0, labelIter...)(x.Y)) {
+				return false // an iterator result is a label start as it is: nothing is added to it
+			}
 			return okTerm(x.X, d+1) && okTerm(x.Y, d+1)
 		case EUnknown:
 			return x.Name == "phi-cycle" || x.Name == "cell-cycle"
+		case ECall, EExtract:
+			// the library's label iterator returns the offset right after an unescaped dot
+			if len(labelIter) > 0 && ResultOf(0, labelIter...)(x) {
+				return true
+			}
+			// an unexported stepper helper: every value it returns is such an offset
+			// or a negative "no more labels" sentinel
+			call, idx := x, 0
+			if x.K == EExtract {
+				call, idx = strip(x.X), x.Idx
+			}
+			if call == nil || call.K != ECall || call.SFn == nil || len(call.SFn.Blocks) == 0 {
+				return false
+			}
+			if fo := funcObjOf(call.SFn); fo == nil || fo.Exported() {
+				return false
+			}
+			nret := 0
+			for _, b := range call.SFn.Blocks {
+				for _, in := range b.Instrs {
+					r, ok := in.(*ssa.Return)
+					if !ok || idx >= len(r.Results) {
+						continue
+					}
+					nret++
+					rv := Desc(r.Results[idx])
+					if v, isC := constInt(rv); isC && v < 0 {
+						continue
+					}
+					if !okTerm(rv, d+1) {
+						return false
+					}
+				}
+			}
+			return nret > 0
 		}
 		return false
 	}
 	if okTerm(e.Args[0], 0) {
-		return "name[offset:] with offset = Σ(IndexByte('.')+1)", true
+		return "name[offset:] with offset = Σ(IndexByte('.')+1) / label iterator", true
 	}
 	return "slice bound of another origin: " + trunc(e.Args[0].String(), 160), false
 }
